@@ -90,6 +90,15 @@ func richTree() fsmodel.Tree {
 	for i, p := range []string{"w/ax/bx/f1", "w/ax/cc/f2", "w/ax/cc/g3", "w/bx/dd/f4", "w/ax/top5"} {
 		t = append(t, fsmodel.Node{Path: p, Kind: fsmodel.File, Perm: 0644, Mtime: fsmodel.T0 + int64(740+i), Data: fsmodel.Content(80+i, 9)})
 	}
+	// names at the length limit of a directory entry (255 bytes) and just below it, of every kind that is written
+	// through its own code path, and one nested inside the other
+	long := func(c string, n int) string { return strings.Repeat(c, n) }
+	t = append(t, fsmodel.Node{Path: long("n", 255), Kind: fsmodel.File, Perm: 0644, Mtime: fsmodel.T0 + 750, Data: []byte("long")},
+		fsmodel.Node{Path: "d/" + long("m", 252), Kind: fsmodel.File, Perm: 0600, Mtime: fsmodel.T0 + 751, Data: fsmodel.Content(90, 40000)},
+		fsmodel.Node{Path: long("q", 255), Kind: fsmodel.Dir, Perm: 0755, Mtime: fsmodel.T0 + 752},
+		fsmodel.Node{Path: long("q", 255) + "/" + long("r", 255), Kind: fsmodel.File, Perm: 0644, Mtime: fsmodel.T0 + 753, Data: []byte("nested")},
+		fsmodel.Node{Path: long("q", 255) + "/" + long("s", 255), Kind: fsmodel.Symlink, Perm: 0777, Mtime: fsmodel.T0 + 754, Link: long("r", 255)},
+		fsmodel.Node{Path: long("q", 255) + "/" + long("t", 254), Kind: fsmodel.Fifo, Perm: 0644, Mtime: fsmodel.T0 + 755})
 	t = append(t, fsmodel.Node{Path: "lf", Kind: fsmodel.Symlink, Perm: 0777, Mtime: fsmodel.T0 + 700, Link: "v00"},
 		fsmodel.Node{Path: "ld", Kind: fsmodel.Symlink, Perm: 0777, Mtime: fsmodel.T0 + 701, Link: "e"})
 	t.Sort()
@@ -248,9 +257,14 @@ func expectCopyRaw(src fsmodel.Tree, c c13Case) c13Expect {
 func judgeC13(c c13Case) (string, string) {
 	root := scratch.Dir("cp13")
 	defer scratch.Remove(root)
-	srcDir, dstDir := filepath.Join(root, "src"), filepath.Join(root, "dst")
+	// the roots carry pattern metacharacters in their own names: only what lies below a root is ever matched
+	srcDir, dstDir := filepath.Join(root, "s[1]rc"), filepath.Join(root, "d[s]t*")
 	os.Mkdir(srcDir, 0755)
 	os.Mkdir(dstDir, 0755)
+	// the destination is a shared directory: set-group-ID with a foreign group, so that the kernel hands that
+	// group (and the bit) to everything created below it - ownership left to creation shows
+	os.Chown(dstDir, 0, 4242)
+	os.Chmod(dstDir, 0775|os.ModeSetgid)
 	var tree fsmodel.Tree
 	switch {
 	case c.Single != nil:
@@ -298,7 +312,9 @@ func judgeC13(c c13Case) (string, string) {
 	if c.Opts.AllowX {
 		ci.XAttrErrorHandler = func(string, string, string, error) error { return nil }
 	}
-	if err := boundedCopy(func() error { return fscopy.Copy(context.Background(), srcDir, c.Src, dstDir, c.Dst, fscopy.WithCopyInfo(ci)) }); err != nil {
+	if err := boundedCopy(func() error {
+		return fscopy.Copy(context.Background(), srcDir, c.Src, dstDir, c.Dst, fscopy.WithCopyInfo(ci))
+	}); err != nil {
 		if err == errCopyHangs {
 			return "copy-hangs", err.Error()
 		}
